@@ -265,19 +265,6 @@ func runQuery(body string, getValues []string, timeoutS int) SolverResult {
 		}
 		return last, false
 	}
-	r, ok := stage(solvers[:2])
-	if ok {
-		return r
-	}
-	ctx, cancel = context.WithCancel(context.Background())
-	defer cancel()
-	r2, ok := stage(solvers[2:])
-	if ok {
-		return r2
-	}
-	if r.Status == "error" && r2.Status != "error" {
-		return r2
-	}
-	r.Raw = r.Raw + "\n--- z3 4.8: " + r2.Raw
+	r, _ := stage(solvers)
 	return r
 }
